@@ -406,6 +406,13 @@ Section Run.
                     | KVal _ _ _ =>
                         let s := match prev with
                                  | Some (KOut t st) => set_val s v (lookup (KOut t st) (s_vals s))
+                                 | Some (KVal n2 t2 s2) =>
+                                     (* a named value also takes over the value of the named
+                                        value it follows (the same-named value with a subtype) *)
+                                     match lookup (KVal n2 t2 s2) (s_vals s) with
+                                     | Some x => set_val s v (Some x)
+                                     | None => s
+                                     end
                                  | _ => s end in
                         let cur := lookup v (s_vals s) in
                         let s := set_last s cur in
